@@ -5,6 +5,7 @@ import (
 	"regexp"
 	"strconv"
 	"strings"
+	"unicode/utf8"
 
 	ds "github.com/sealdice/dicescript"
 
@@ -215,6 +216,17 @@ func c14N(tier string) int {
 func c14Case(w *fw.W, idx int, r *fw.Rand) {
 	toks := c14Gen(r, 1+r.Intn(3))
 	src := c14Print(r, toks)
+	// the multi-byte variable gets an arbitrary CJK name (1-3 characters from the whole block,
+	// so every final byte 0x80..0xBF occurs), not one fixed spelling
+	cjk := "力量"
+	if r.P(2, 3) {
+		var sb strings.Builder
+		for k := r.Range(1, 4); k > 0; k-- {
+			sb.WriteRune(rune(0x4e00 + r.Intn(0x9fa5-0x4e00)))
+		}
+		cjk = sb.String()
+		src = strings.ReplaceAll(src, "力量", cjk)
+	}
 	tail := ""
 	if r.P(1, 4) {
 		tail = r.Pick([]string{" 理由", " reason", " ,", "  测试"})
@@ -227,7 +239,7 @@ func c14Case(w *fw.W, idx int, r *fw.Rand) {
 	desc := fmt.Sprintf("cfg=%s src=%q tail=%q", cfg, src, tail)
 	w.Begin(idx, desc)
 	vm := cfg.NewVM()
-	vm.Attrs.Store("力量", ds.NewIntVal(60))
+	vm.Attrs.Store(cjk, ds.NewIntVal(60))
 	vm.Attrs.Store("x1", ds.NewIntVal(3))
 	vm.Attrs.Store("$t", ds.NewIntVal(7))
 	vm.Attrs.Store("敏捷:当前", ds.NewIntVal(45))
@@ -259,6 +271,9 @@ func c14Case(w *fw.W, idx int, r *fw.Rand) {
 	}
 	if d1 != d2 {
 		w.Violate(idx, "mismatch", "detail|not-idempotent", desc, fmt.Sprintf("%q then %q", d1, d2), nil)
+	}
+	if !utf8.ValidString(d1) {
+		w.Violate(idx, "mismatch", "detail|invalid-utf8", desc, fmt.Sprintf("the process text %q is not valid UTF-8 (a span was cut inside a character)", d1), nil)
 	}
 	if Canon(vm.Ret) != retBefore || CanonVars(vm) != varsBefore || seedOf(vm) != seedBefore {
 		w.Violate(idx, "mismatch", "detail|side-effect", desc, "Ret, variables or generator state changed across GetDetailText", nil)
